@@ -174,6 +174,21 @@ Fixpoint run (r : router) (l : list op) : list (bool * list delivery) :=
   | o :: rest => let (r', out) := step r o in out :: run r' rest
   end.
 
+(* ---------- add_rule called from inside a sink's startTestRun while the run is being opened ----------
+   StreamResultRouter.startTestRun is `for sink in self._sinks: sink.startTestRun()` followed by `self._in_run = True`:
+   a loop over the LIVE list.  When the sink at position k reacts to its startTestRun by making the accepted
+   add_rule calls `adds`, the sinks they register are appended to the list the loop is walking. *)
+Definition is_add (o : op) : bool :=
+  match o with AddPrefix _ _ _ _ | AddId _ _ _ => true | _ => false end.
+Definition apply_adds (r : router) (adds : list op) : router := fold_left (fun r o => fst (step r o)) adds r.
+Definition adds_out (r : router) (adds : list op) : list (bool * list delivery) := run r adds.
+
+Definition start_reentrant (r : router) (k : nat) (adds : list op) : router * (bool * list delivery) :=
+  let r' := apply_adds r adds in                        (* made when the loop has reached position k *)
+  (with_run r' true,
+   (false, map (fun s => (s, StartRun)) (firstn (S k) (r_sinks r))             (* positions 0..k: before the reaction *)
+           ++ map (fun s => (s, StartRun)) (skipn (S k) (r_sinks r')))).       (* the loop goes on over the list as it is NOW *)
+
 (* an event pushed through StreamToQueue objects and popped again by a chain of
    routers, one per code (outermost first), each with one consuming rule that
    leads to the next router; every router falls back to the final sink *)
